@@ -1554,8 +1554,19 @@ func (l *lexer) linebreak() bool {
 			l.mark(0)
 		case '#':
 			// comment
-			hash = true
-			l.mark(-1)
+			if hash {
+				l.b.WriteRune(r)
+			} else {
+				hash = true
+				l.mark(-1)
+			}
+		case '\t', ' ':
+			// <blank>
+			if hash {
+				l.b.WriteRune(r)
+			} else {
+				l.mark(0)
+			}
 		default:
 			if !hash {
 				l.unread()
